@@ -64,6 +64,7 @@ pub struct RepoSpec {
 }
 pub struct BuiltRepo {
     pub root: Vec<u8>,
+    pub root_latest: Vec<u8>,
     pub meta: BTreeMap<String, Vec<u8>>,         // file name in the metadata directory -> bytes
     pub target_files: BTreeMap<String, Vec<u8>>, // relative path in the targets directory -> bytes
     pub top_keys: Vec<MemKey>,                   // root, timestamp, snapshot, targets
@@ -157,9 +158,18 @@ pub async fn build_repo(spec: &RepoSpec) -> BuiltRepo {
         rr.insert(rt, RoleKeys { keyids: vec![kid(&p)], threshold: nz(1), _extra: HashMap::new() });
     }
     let rp = top_keys[0].pair();
-    let root = ser(&sign(Root { spec_version: "1.0.0".into(), consistent_snapshot: spec.consistent, version: nz(spec.root_version), expires: far(), keys: table, roles: rr, _extra: HashMap::new() }, &[&rp]).await);
-    meta.insert(format!("{}.root.json", spec.root_version), root.clone());
-    BuiltRepo { root, meta, target_files, top_keys, role_keys }
+    // every root version 1..=root_version (same keys); `root` is version 1 (what a client ships with), root_latest the newest
+    let mut root = vec![];
+    let mut root_latest = vec![];
+    for v in 1..=spec.root_version.max(1) {
+        let b = ser(&sign(Root { spec_version: "1.0.0".into(), consistent_snapshot: spec.consistent, version: nz(v), expires: far(), keys: table.clone(), roles: rr.clone(), _extra: HashMap::new() }, &[&rp]).await);
+        meta.insert(format!("{v}.root.json"), b.clone());
+        if v == 1 {
+            root = b.clone();
+        }
+        root_latest = b;
+    }
+    BuiltRepo { root, root_latest, meta, target_files, top_keys, role_keys }
 }
 
 impl BuiltRepo {
